@@ -1,6 +1,7 @@
 (* M2 - pyflyby._parse: _is_comment_or_blank, _split_code_lines, PythonBlock.statements.
    The model is of the tree with the fixes F01 (character columns), F03 (walk stops at the
-   node's last line), F35 (decorator "@" position) applied.   No proofs here.
+   node's last line), F35 (decorator "@" position), F37 (comment line ending in a backslash at
+   end of input) applied.   No proofs here.
 
    CPython's top-level node list is an oracle argument: for each node its start position
    (as annotated by _annotate_ast_startpos: text.startpos + (lineno-1, character column)), the
@@ -80,7 +81,8 @@ Definition piece := (option node * text)%type.
             if endpos == text.endpos:
                 if (endpos.lineno > last_node_lineno and _is_comment_or_blank(text[endpos.lineno])):
                     assert startpos.lineno < endpos.lineno
-                    if not text[endpos.lineno-1].endswith("\\"):
+                    if (not text[endpos.lineno-1].endswith("\\") or
+                        _is_comment_or_blank(text[endpos.lineno-1])):         (F37)
                         endpos = FilePos(endpos.lineno,1)
         if endpos.colno == 1:
             while ...   (walk_back)
@@ -101,7 +103,8 @@ Definition node_endpos (t : text) (n : node) (next : pos) : option pos :=
               if negb (lineno (n_start n) <? lineno next) then None
               else match get_line t (lineno next - 1) with
                    | None => None
-                   | Some p => if ends_with_bslash p then Some next else Some (mkPos (lineno next) 1)
+                   | Some p => if negb (ends_with_bslash p) || is_comment_or_blank p
+                               then Some (mkPos (lineno next) 1) else Some next
                    end
             else Some next
         end
